@@ -29,7 +29,7 @@ TOL = {
     "s2y2s": 1e-11, "y2s2y": 1e-11,
     "compose_cys": 1e-13, "compose_scy": 1e-13, "norm_sph": 1e-14, "norm_cyl": 1e-14,
     "phi_vs_atan2": 1e-15, "theta_vs_acos": 1e-9, "identity": 0.0,
-    "orth": 1e-14, "det": 1e-14, "zyz": 1e-14, "deg": 1e-12, "rotpts": 1e-13, "rotdist": 1e-13,
+    "orth": 1e-14, "det": 1e-14, "zyz": 1e-14, "deg": 1e-12, "rotpts": 1e-13, "rotdist": 1e-13, "rotpts@int_forms": 1e-13, "int_forms": 0.0, "rotpts@float32": 1e-6,
     "pair_rot": 1e-12, "centroid_rot": 1e-12, "pair_tr": 1e-12, "centroid_tr": 1e-12, "rigid_pos": 1e-12,
     "tr3": 0.0, "rot3": 0.0,
 }
@@ -68,6 +68,9 @@ def cases(tier, seed):
     for i in range(n_rand):
         out.append({"id": "comp-%d" % i, "kind": "comp", "seed": [seed, "comp", i],
                     "shape": ["spheres", "scatterers", "nested", "rigid"][i % 4], "nmem": 1 + (i // 4) % 6})
+    for i in range(40 if tier == "quick" else 600):
+        out.append({"id": "comp-lattice-%d" % i, "kind": "comp", "seed": [seed, "complat", i], "lattice": 1 + i % 5,
+                    "shape": ["spheres", "scatterers", "nested", "rigid"][(i // 5) % 4], "nmem": 2 + (i // 20) % 4})
     return out
 
 
@@ -183,6 +186,19 @@ def _run_pts(case):
         o = np.asarray(ftf(nm, nm)([x, y, z]))
         idd = max(idd, float(np.abs(o - np.array([x, y, z])).max()))
     resid["identity"] = idd
+    # integer-valued coordinates given as integer arrays / lists of ints / float32 mean the same points
+    ip = np.round(np.clip(p[: min(len(x), 12)], -1e6, 1e6) / max(1.0, float(np.abs(p[: min(len(x), 12)]).max()) / 50.0)).astype(np.int64)
+    ix, iy, iz = ip[:, 0], ip[:, 1], ip[:, 2]
+    fs = np.asarray(c2s([ix.astype(float), iy.astype(float), iz.astype(float)]))
+    fy = np.asarray(c2y([ix.astype(float), iy.astype(float), iz.astype(float)]))
+    worst = 0.0
+    for form in ([ix, iy, iz], np.array([ix, iy, iz]), [ix.astype(np.int32), iy.astype(np.int32), iz.astype(np.int32)]):     # components must support arithmetic: arrays, not nested lists
+        gs, gy = np.asarray(c2s(form), dtype=float), np.asarray(c2y(form), dtype=float)
+        if gs.shape != fs.shape or gy.shape != fy.shape:
+            worst = np.inf
+            break
+        worst = max(worst, float(np.abs(gs - fs).max()), float(np.abs(gy - fy).max()))
+    resid["int_forms"] = fnum(worst)
     # scalar z is broadcast
     if case.get("scalar_z"):
         zc = float(z[0])
@@ -227,6 +243,19 @@ def _run_rot(case):
     one = rotate_points(pts[0], a, b, g)
     flags["single_point"] = bool(np.shape(one) == (3,) and np.allclose(one, rp[0], rtol=0, atol=1e-14 * np.abs(pts).max()))
     flags["pts_unmodified"] = bool(np.array_equal(pts, rng_for("rotpts", a, b, g).normal(size=(7, 3)) * 3))
+    # point sets in the other forms a caller may pass: integer arrays, nested lists of ints, float32, one point, (1,3)
+    ipts = rng.integers(-9, 10, size=(5, 3))
+    iref = (ref @ ipts.T.astype(float)).T
+    worst = 0.0
+    for form in (ipts, ipts.tolist(), [tuple(int(v) for v in row) for row in ipts], ipts.astype(np.int32), ipts.astype(float).tolist(), ipts[:1]):
+        got = np.asarray(rotate_points(form, a, b, g), dtype=float)
+        exp = iref[:len(got)]
+        worst = max(worst, float(np.abs(got - exp).max()) / 9.0) if got.shape == exp.shape else np.inf
+    resid["rotpts@int_forms"] = fnum(worst)
+    f32 = np.asarray(rotate_points(ipts.astype(np.float32), a, b, g), dtype=float)
+    resid["rotpts@float32"] = fnum(float(np.abs(f32 - iref).max()) / 9.0)
+    one_i = np.asarray(rotate_points([int(v) for v in ipts[0]], a, b, g), dtype=float)
+    resid["rotpts@int_forms"] = fnum(max(resid["rotpts@int_forms"], float(np.abs(one_i - iref[0]).max()) / 9.0))
     return {"resid": resid, "flags": flags, "angles": [a, b, g]}
 
 
@@ -252,6 +281,17 @@ def _run_comp(case):
     sph = [Sphere(n=1.5 + 0.1 * i, r=float(rad[i]), center=[float(v) for v in cen[i]]) for i in range(n)]
     ang = [float(v) for v in rng.uniform(-TWO_PI, TWO_PI, 3)]
     t = [float(v) for v in rng.normal(size=3) * scale * 5]
+    if case.get("lattice"):
+        # members on an integer lattice, rotation about ONE lab axis (or none): the displacement of a member then has
+        # exactly-zero components, which the member translation must treat as numbers like any other
+        scale = 1.0
+        cen = rng.integers(-4, 5, size=(n, 3)).astype(float)
+        cen += -np.round(cen.mean(0))
+        rad = rng.uniform(0.05, 0.3, n)
+        sph = [Sphere(n=1.5 + 0.1 * i, r=float(rad[i]), center=[float(v) for v in cen[i]]) for i in range(n)]
+        b = [math.pi / 3, math.pi / 2, math.pi, float(rng.uniform(0.1, 3.0))][int(rng.integers(0, 4))]
+        ang = [[0.0, b, 0.0], [b, 0.0, 0.0], [0.0, 0.0, b], [0.0, 0.0, 0.0], [0, b, 0]][case["lattice"] - 1]
+        t = [float(v) for v in rng.integers(-3, 4, 3)]
     shape = case["shape"]
     resid, flags = {}, {}
     Rref = _Rz(ang[2]) @ _Ry(ang[1]) @ _Rz(ang[0])
